@@ -141,6 +141,37 @@ def run(ctx):
     batch_script_set(ctx, 'C03.r5')
     # reviewed reference of the storage functions' durable writes (engine/census.py)
     from rules import census_fns
+    # r6 (F41): the block filters are matched only for the scripts whose block number is behind the batch (get_scripts_hash),
+    # so a block downloaded for one script must not be indexed again for a script which has already passed it: the outputs it
+    # would re-insert were possibly spent in later blocks which are not downloaded again
+    FB = ctx.body('Storage::filter_block')
+    fdu = DefUse(FB)
+    prog_filters = []
+    for c in P.closures_of(FB, transitive=False):
+        tag = re.search(r'\[closure@([^\]]+)\]', c.sig_args)
+        cdu = DefUse(c)
+        for blk in c.blocks.values():
+            if blk.cleanup:
+                continue
+            for st in blk.stmts:
+                m = re.match(r'^(Le|Lt|Ge|Gt)\((.*), (.*)\)$', (st.rhs or '').strip()) if st.kind == 'assign' and st.lhs.strip() == '_0' else None
+                if not m or not tag:
+                    continue
+                # script progress (a field of the closure's ScriptStatus parameter) compared with the captured block number
+                lhs_param = any(o[0] == 'param' for o in cdu.origins(m.group(2), stop_at_calls=False))
+                rhs_param = any(o[0] == 'param' for o in cdu.origins(m.group(3), stop_at_calls=False))
+                if m.group(1) in ('Le', 'Lt') and lhs_param or m.group(1) in ('Ge', 'Gt') and rhs_param:
+                    prog_filters.append(tag.group(1))
+    flt = [(bid, t) for bid, k, t in P.call_keys(FB) if k.endswith('Iterator>::filter')
+           and any(t.callee.rstrip().endswith('::filter::<[closure@%s]>' % g) for g in prog_filters)
+           and fdu.from_call(t.args[0], 'Storage::get_filter_scripts')]
+    used = [t for _, k, t in P.call_keys(FB) + [x for c in P.closures_of(FB) for x in P.call_keys(c)] if k.endswith('HashSet::contains')]
+    setok = bool(flt) and any(o[0] == 'call' and o[1].endswith('Iterator>::filter') for bid, k, t in P.call_keys(FB) if k.endswith('Iterator>::collect')
+                              for o in fdu.origins(t.args[0], stop_at_calls=False))
+    ctx.ob('C03.r6', FB.name, 'a block is indexed only for the scripts whose block number has not passed it (script set = get_filter_scripts filtered by progress <= block number)',
+           bool(flt) and setok, filters=len(flt), membership_tests=len(used),
+           failing_history=None if (flt and setok) else 'T registered at 0 and synced to the tip: tx1 (block b1) creates a T cell and an S cell, tx2 (block b2 > b1) spends the T cell; '
+           'set_scripts([S@0], partial) and sync again: b1 matches S, is downloaded and filter_block re-inserts the T cell; b2 does not match S and is never downloaded again')
     census_fns.run(ctx, 'C03')
 
 
